@@ -22,7 +22,7 @@ EXPLANATION = (
     'solver-enumerated bounded family (CrossHair + z3 enumerate and certify coverage of the selector space; the code '
     'generator needs concrete text, so the body runs on realised selectors under NoTracing): the (old, new) pairs of '
     'C10 (two of 14 edit kinds on a deep copy / a shallow copy sharing objects with old / an unrelated member) are '
-    'diffed with build_diff, and eight hand-assembled diff templates exercise references among new shared values '
+    'diffed with build_diff, and ten hand-assembled diff templates exercise references among new shared values '
     '(forward and backward), from shared values into old paths, into moved and into replaced / deleted parts of old, '
     'swaps, and callable changes combined with tag operations; for every diff, both variable-naming modes and old '
     'supplied or not, the emitted fiddler is compiled and run on a deep copy of old and compared canonically with '
@@ -74,11 +74,11 @@ def _compare(diff, old, naming, give_old):
 def c13_pairs(mode: int, e1: int, e2: int, i1: int, i2: int, w: int, t1x: int, t2x: int, t2y: int, naming: int, give_old: bool) -> bool:
   """
   build_diff over the C10 pair family.
-  require: 0 <= mode <= 2 and 0 <= e1 <= 13 and 0 <= e2 <= 13 and 0 <= i1 <= 2 and 0 <= i2 <= 2 and 0 <= w <= 5
+  require: 0 <= mode <= 2 and 0 <= e1 <= 15 and 0 <= e2 <= 15 and 0 <= i1 <= 2 and 0 <= i2 <= 2 and 0 <= w <= 5
   require: -1 <= t1x <= 0 and -1 <= t2x <= 1 and -1 <= t2y <= 1 and 0 <= naming <= 1
   """
   import crosshair
-  mode, e1, e2, i1, i2, w = _conc(mode, 0, 2), _conc(e1, 0, 13), _conc(e2, 0, 13), _conc(i1, 0, 2), _conc(i2, 0, 2), _conc(w, 0, 5)
+  mode, e1, e2, i1, i2, w = _conc(mode, 0, 2), _conc(e1, 0, 15), _conc(e2, 0, 15), _conc(i1, 0, 2), _conc(i2, 0, 2), _conc(w, 0, 5)
   t1x, t2x, t2y, naming, give_old = _conc(t1x, -1, 0), _conc(t2x, -1, 1), _conc(t2y, -1, 1), _conc(naming, 0, 1), bool(give_old)
   with crosshair.NoTracing():
     old, _ = c10._make(t1x, -1, t2x, t2y, w, 0)
@@ -113,7 +113,8 @@ A = daglish.Attr
 TEMPLATES = ['shared value refers to an old path that is replaced', 'forward reference among shared values',
              'backward reference among shared values', 'swap two children by reference', 'salvage a child of a deleted subtree',
              'salvage a child of a replaced subtree into a new Config', 'callable change + tag on a parameter of the new callable',
-             'shared Config holding a shared list (name order differs from dependency order)']
+             'shared Config holding a shared list (name order differs from dependency order)',
+             'chain of references among shared values 0 -> 2 -> 1', 'old object with two parents: slot replaced through one, child salvaged through the other']
 
 
 def _template(k):
@@ -141,19 +142,27 @@ def _template(k):
     old = fdl.Config(c10.two, x=mid, y=3)
     d = diffing.Diff(changes=(diffing.ModifyValue((daglish.BuildableFnOrCls(),), fam.g3), diffing.AddTag((A('z'),), c10.T1),
                               diffing.SetValue((A('z'),), 9), diffing.AddTag((A('x'),), c10.T0)))
-  else:
+  elif k == 7:
     d = diffing.Diff(changes=(diffing.SetValue((A('z'),), _ref_new(1)), diffing.ModifyValue((A('y'),), _ref_new(0))),
                      new_shared_values=([3, _ref_old(A('x'))], fdl.Config(fam.g0, x=_ref_new(0), y=_ref_new(0))))
+  elif k == 8:
+    d = diffing.Diff(changes=(diffing.SetValue((A('z'),), _ref_new(0)), diffing.ModifyValue((A('y'),), [_ref_new(2), _ref_new(1)])),
+                     new_shared_values=([_ref_new(2), 0], {'k': 1}, fdl.Config(fam.g4, x=_ref_new(1), y=_ref_new(1))))
+  else:
+    # `mid` is reachable as .x and as .y: its slot x is replaced through .x, its old child is salvaged through .y
+    old = fdl.Config(fam.g2, x=mid, y=mid, z=[1])
+    d = diffing.Diff(changes=(diffing.ModifyValue((A('x'), A('x')), 7), diffing.ModifyValue((A('z'),), _ref_old(A('y'), A('x'))),
+                              diffing.ModifyValue((A('y'), A('x'), A('x')), 5)))
   return old, d
 
 
 def c13_templates(k: int, naming: int, give_old: bool) -> bool:
   """
   Hand-assembled diffs (references among new shared values, into moved and replaced parts of old).
-  require: 0 <= k <= 7 and 0 <= naming <= 1
+  require: 0 <= k <= 9 and 0 <= naming <= 1
   """
   import crosshair
-  k, naming, give_old = _conc(k, 0, 7), _conc(naming, 0, 1), bool(give_old)
+  k, naming, give_old = _conc(k, 0, 9), _conc(naming, 0, 1), bool(give_old)
   with crosshair.NoTracing():
     old, d = _template(k)
     note('c13t', k, naming, give_old)
@@ -163,9 +172,9 @@ def c13_templates(k: int, naming: int, give_old: bool) -> bool:
 def obligations(tier, seed):
   cubes = []
   for mode in range(3):
-    for e1 in range(14):
-      for e2 in range(14):
-        if tier == 'quick' and (e1 * 14 + e2 + mode) % 4:
+    for e1 in range(16):
+      for e2 in range(16):
+        if tier == 'quick' and (e1 * 16 + e2 + mode) % 4:
           continue
         j = mode + e1 + e2
         fix = dict(mode=mode, e1=e1, e2=e2)
@@ -178,8 +187,8 @@ def obligations(tier, seed):
   return [
       Obligation('c13_pairs', c13_pairs, cubes, timeout=t, path_timeout=120, enumerated=True,
                  smoke=dict(mode=0, e1=0, e2=9, i1=1, i2=2, w=1, t1x=0, t2x=1, t2y=0, naming=0, give_old=True),
-                 extra_smokes=[dict(mode=e % 3, e1=e, e2=(e + 5) % 14, i1=e % 3, i2=(e + 1) % 3, w=e % 6, t1x=0, t2x=1, t2y=0,
-                                    naming=e % 2, give_old=bool(e % 3)) for e in range(14)]),
-      Obligation('c13_templates', c13_templates, [Cube(f'k{k}', [], dict(k=k)) for k in range(8)], timeout=120,
+                 extra_smokes=[dict(mode=e % 3, e1=e, e2=(e + 5) % 16, i1=e % 3, i2=(e + 1) % 3, w=e % 6, t1x=0, t2x=1, t2y=0,
+                                    naming=e % 2, give_old=bool(e % 3)) for e in range(16)]),
+      Obligation('c13_templates', c13_templates, [Cube(f'k{k}', [], dict(k=k)) for k in range(10)], timeout=120,
                  enumerated=True, smoke=dict(k=3, naming=0, give_old=True)),
   ]
